@@ -364,7 +364,16 @@ drain:
 			break drain
 		}
 	}
-	time.Sleep(250 * time.Millisecond) // grace period: closes travel to the listener
+	// grace period: closes travel to the listener.  At least 250 ms; on a loaded machine up to 5 s, ending
+	// as soon as no more than the expected number of connections is open
+	time.Sleep(250 * time.Millisecond)
+	expectOpen := 0
+	if r.err == nil && r.c != nil {
+		expectOpen = 1
+	}
+	for i := 0; i < 475 && len(cs.open()) > expectOpen; i++ {
+		time.Sleep(10 * time.Millisecond)
+	}
 	open := cs.open()
 	out.OpenAtPeer = len(open)
 	cs.mu.Lock()
